@@ -4,6 +4,7 @@ package main
 
 import (
 	"context"
+	"errors"
 	"fmt"
 	"strconv"
 	"strings"
@@ -14,6 +15,7 @@ import (
 	"github.com/NethermindEth/juno/core"
 	"github.com/NethermindEth/juno/db"
 	"github.com/NethermindEth/juno/db/memory"
+	"github.com/NethermindEth/juno/migration"
 	"github.com/NethermindEth/juno/migration/blocktransactions"
 	"github.com/NethermindEth/juno/utils/log"
 	"verif/harness/lib"
@@ -107,10 +109,12 @@ func heightTok(d db.KeyValueReader) string {
 // ---- running the real migration with interruptions ----------------------------------------
 
 type btPlan struct {
-	Inflate     bool  `json:"inflate"`     // batches report >= 96 MB as soon as non-empty
-	PreCancel   bool  `json:"preCancel"`   // context cancelled before Migrate is called
-	CancelAtCmt int   `json:"cancelAtCmt"` // cancel right after this commit (0 = never)
-	CancelAtGet int64 `json:"cancelAtGet"` // cancel at this database read (0 = never)
+	Inflate     bool  `json:"inflate"`           // batches report >= 96 MB as soon as non-empty
+	PreCancel   bool  `json:"preCancel"`         // context cancelled before Migrate is called
+	CancelAtCmt int   `json:"cancelAtCmt"`       // cancel right after this commit (0 = never)
+	CancelAtGet int64 `json:"cancelAtGet"`       // cancel at this database read (0 = never)
+	FailAt      int   `json:"failAt,omitempty"`  // this commit attempt fails (0 = never)
+	FailAll     bool  `json:"failAll,omitempty"` // … and every later one
 }
 
 // hungOnce: a migration run did not return; its goroutines may still spin, so no further runs
@@ -118,11 +122,14 @@ type btPlan struct {
 var hungOnce atomic.Bool
 
 type btOutcome struct {
-	ret     string             // done | rerun | failed | hang | panic
-	errText string             //
-	images  []*memory.Database // image after every commit
-	final   *memory.Database
-	commits int
+	ret          string             // done | rerun | failed | hang | panic
+	errText      string             //
+	images       []*memory.Database // image after every commit
+	final        *memory.Database
+	commits      int
+	failedWrites int
+	state        []byte // the state Migrate returned
+	ctxErr       bool   // the returned error wraps context.Canceled
 }
 
 func classifyRet(state []byte, err error) string {
@@ -138,11 +145,23 @@ func classifyRet(state []byte, err error) string {
 
 // runBlockTx runs the real blocktransactions.Migrator on (a copy of) d.
 func runBlockTx(d *memory.Database, p btPlan, capture bool) btOutcome {
+	return runBlockTxD(d, p, capture, 15*time.Second, true)
+}
+
+// runBlockTxD: deadline d; sticky = a hang stops all later runs (its goroutines may spin). Runs with
+// injected write failures use sticky = false: there a hang means goroutines parked on a semaphore.
+func runBlockTxD(d *memory.Database, p btPlan, capture bool, deadline time.Duration, sticky bool) btOutcome {
+	return runMigrator(blocktransactions.Migrator{}, nil, d, p, capture, deadline, sticky)
+}
+
+// runMigrator runs one Before(state)+Migrate of a real migration on a copy of d under plan p.
+func runMigrator(m migration.Migration, state []byte, d *memory.Database, p btPlan, capture bool, deadline time.Duration, sticky bool) btOutcome {
 	work := d.Copy()
 	s := newFaultStore(work)
 	if p.Inflate {
 		s.inflate = 96 * 1024 * 1024
 	}
+	s.failAt, s.failAll = p.FailAt, p.FailAll
 	ctx, cancel := context.WithCancel(context.Background())
 	defer cancel()
 	var out btOutcome
@@ -164,17 +183,19 @@ func runBlockTx(d *memory.Database, p btPlan, capture bool) btOutcome {
 	if p.PreCancel {
 		cancel()
 	}
-	var state []byte
 	var err error
 	if hungOnce.Load() {
 		out.ret = "hang"
 		out.errText = "skipped: an earlier run of the migration did not return"
 		return out
 	}
-	finished := lib.WithDeadline(15*time.Second, func() {
+	finished := lib.WithDeadline(deadline, func() {
 		e, panicked, _ := lib.Try(func() error {
 			var e2 error
-			state, e2 = blocktransactions.Migrator{}.Migrate(ctx, s, &networks.Sepolia, log.NewNopZapLogger())
+			if e0 := m.Before(state); e0 != nil {
+				return e0
+			}
+			state, e2 = m.Migrate(ctx, s, &networks.Sepolia, log.NewNopZapLogger())
 			return e2
 		})
 		err = e
@@ -185,19 +206,24 @@ func runBlockTx(d *memory.Database, p btPlan, capture bool) btOutcome {
 	switch {
 	case !finished:
 		out.ret = "hang"
-		out.errText = "Migrate did not return within 15 s"
-		hungOnce.Store(true)
+		out.errText = fmt.Sprintf("Migrate did not return within %v", deadline)
+		if sticky {
+			hungOnce.Store(true)
+		}
 		return out
 	case out.ret == "panic":
 		out.errText = err.Error()
 	default:
 		out.ret = classifyRet(state, err)
+		out.state = state
+		out.ctxErr = err != nil && errors.Is(err, context.Canceled)
 		if err != nil {
 			out.errText = err.Error()
 		}
 	}
 	s.mu.Lock()
 	out.commits = s.commits
+	out.failedWrites = s.failed
 	s.hook = nil
 	s.mu.Unlock()
 	out.final = work
@@ -224,6 +250,11 @@ func (m *btModel) ask(line string) string {
 // kind: "crash" (post is the image after some commit of an interrupted run; only the database is
 // compared) or "return" (Migrate returned ret; database and return class are compared).
 func (m *btModel) transition(c chainSpec, pre, post *memory.Database, kind, ret, where string) {
+	m.transitionW(c, pre, post, kind, ret, where, false)
+}
+
+// transitionW: wfail = the run saw a failed batch write (the model step is `writeFail`).
+func (m *btModel) transitionW(c chainSpec, pre, post *memory.Database, kind, ret, where string, wfail bool) {
 	a0 := abstractImage(pre, c)
 	a1 := abstractImage(post, c)
 	ht := heightTok(pre)
@@ -256,6 +287,8 @@ func (m *btModel) transition(c chainSpec, pre, post *memory.Database, kind, ret,
 			}
 		}
 		switch {
+		case wfail:
+			tok = "W*:" + string(bits)
 		case kind == "crash":
 			tok = "C*:" + string(bits)
 		case ret == "rerun" && hi == nr:
@@ -266,6 +299,9 @@ func (m *btModel) transition(c chainSpec, pre, post *memory.Database, kind, ret,
 		default:
 			tok = "P"
 		}
+	}
+	if wfail && tok == "P" {
+		tok = "W*:-"
 	}
 	if kind == "return" && ret == "rerun" && strings.Join(a0, " ") == strings.Join(a1, " ") {
 		tok = "H"
